@@ -60,12 +60,32 @@ theorem mkRecord_length (fl di ol he fp bl tx : Nat) (hdr : Bytes) (h : hdr.leng
 
 /-! ### LoadBlockIndex -/
 
+/-- the invalid-record branch touches the two data-file accumulators only, and never lowers the file number -/
+theorem bumpInvalid_fields (a : LoadAcc) (fl : Nat) (b : Bytes) :
+    (bumpInvalid a fl b).index = a.index ∧ (bumpInvalid a fl b).maxidxfilepos = a.maxidxfilepos ∧
+    (bumpInvalid a fl b).walk = a.walk ∧ a.maxdatfileidx ≤ (bumpInvalid a fl b).maxdatfileidx ∧
+    ((bumpInvalid a fl b).maxdatfileidx = a.maxdatfileidx → (bumpInvalid a fl b).maxdatfilepos = a.maxdatfilepos) ∧
+    (bumpInvalid a fl b).maxdatfilepos ≤ a.maxdatfilepos ∧
+    (bumpInvalid a fl b).maxdatfileidx ≤ max a.maxdatfileidx (field b 28 32) := by
+  unfold bumpInvalid
+  simp only
+  have hd : (if hasFlag fl BLOCK_INDEX = true then field b 28 32 else 0) ≤ field b 28 32 := by split <;> omega
+  generalize (if hasFlag fl BLOCK_INDEX = true then field b 28 32 else 0) = d at hd
+  by_cases hc : Gen.BlockDBFacts.invalidCountsFile = true ∧ d ≠ 0xffffffff ∧ d > a.maxdatfileidx
+  · rw [if_pos hc]
+    refine ⟨rfl, rfl, rfl, by simp only; omega, ?_, Nat.zero_le _, by simp only; omega⟩
+    intro e; simp only at e; omega
+  · rw [if_neg hc]
+    exact ⟨rfl, rfl, rfl, Nat.le_refl _, fun _ => rfl, Nat.le_refl _, by omega⟩
+
 /-- with the fix, every record — valid or invalid-flagged — advances the index position by one record -/
 theorem loadRecord_maxidx (env : Env) (h : env.advInvalid = true) (a : LoadAcc) (b : Bytes) :
     (loadRecord env a b).maxidxfilepos = a.maxidxfilepos + 136 := by
   unfold loadRecord
   simp only [h, recsize_eq]
-  split <;> simp
+  split
+  · simp only [↓reduceIte, (bumpInvalid_fields a _ b).2.1]
+  · simp
 
 /-- every index entry produced by one record has an ipos below the new position -/
 theorem loadRecord_ipos (env : Env) (h : env.advInvalid = true) (a : LoadAcc) (b : Bytes)
@@ -78,7 +98,8 @@ theorem loadRecord_ipos (env : Env) (h : env.advInvalid = true) (a : LoadAcc) (b
   unfold loadRecord
   simp only [h, recsize_eq]
   split
-  · intro h1 h2
+  · simp only [↓reduceIte, (bumpInvalid_fields a _ b).1]
+    intro h1 h2
     have := ha k r p h1 h2
     omega
   · simp only [AL.get_set]
